@@ -347,9 +347,47 @@ def width_of(x):
     return None
 
 
+def small_range(o):
+    """K <= 128 with 0 <= o < K known, else None (o symbolic)."""
+    if isinstance(o, SymBool):
+        return 2
+    mr = getattr(o, "modrange", None)
+    if mr is not None:
+        return mr if mr <= 128 else None
+    c = ctx()
+    r, _ = c.check(z3.Not(z3.And(o.e >= 0, o.e < 128)), timeout=500)
+    if r != z3.unsat:
+        o.modrange = 1 << 30
+        return None
+    for K in (8, 16, 32, 64):
+        r, _ = c.check(z3.Not(z3.And(o.e >= 0, o.e < K)), timeout=500)
+        if r == z3.unsat:
+            o.modrange = K
+            return K
+    o.modrange = 128
+    return 128
+
+
+def chain(eo, K, fn):
+    """If-chain  fn(k) for eo == k, k in range(K)  (eo known to be in range(K))."""
+    e = fn(K - 1)
+    for k in range(K - 2, -1, -1):
+        e = z3.If(eo == k, fn(k), e)
+    return e
+
+
 def and_sym(a, b):
     """a & b for two symbolic operands."""
     c = ctx()
+    # rule: b == 2**i with i in a small range:  a & 2**i == bit_i(a) * 2**i
+    for p, q in ((a, b), (b, a)):
+        K = getattr(q, "smallcount", None)
+        if K is not None and q.pow2of is not None and isinstance(p, SymInt):
+            ep = p.e
+            r = mk(chain(q.pow2of, K, lambda k: ((ep / z3.IntVal(1 << k)) % 2) * z3.IntVal(1 << k)))
+            if isinstance(r, SymInt):
+                r.width = K
+            return r
     # rule: b == t * pow2(s) and 0 <= a < pow2(s)  => 0
     for p, q in ((a, b), (b, a)):
         s = getattr(q, "lowzeros", None)
@@ -453,7 +491,7 @@ def sym_not(x):
 # ---------------------------------------------------------------- SymInt
 
 class SymInt:
-    __slots__ = ("e", "width", "lowzeros", "allones", "pow2of")
+    __slots__ = ("e", "width", "lowzeros", "allones", "pow2of", "modrange", "smallcount")
 
     def __init__(self, e, width=None):
         self.e = e
@@ -461,6 +499,8 @@ class SymInt:
         self.lowzeros = None
         self.allones = None
         self.pow2of = None
+        self.modrange = None
+        self.smallcount = None
 
     # -- truthiness / conversion
     def __bool__(self):
@@ -560,6 +600,7 @@ class SymInt:
         r = mk(mod_z3(self.e, d))
         if isinstance(r, SymInt) and isinstance(d, int) and d > 0:
             r.width = max((d - 1).bit_length(), 1)
+            r.modrange = d
         return r
 
     def __rmod__(self, o):
@@ -602,6 +643,13 @@ class SymInt:
         eo = as_z3_int(o)
         if ctx().decide(eo < 0):
             raise ValueError("negative shift count")
+        K = small_range(o)
+        if K is not None:
+            r = mk(chain(eo, K, lambda k: self.e * z3.IntVal(1 << k)))
+            if isinstance(r, SymInt):
+                if self.width is not None:
+                    r.width = self.width + K - 1
+            return r
         r = mk(self.e * pow2f(eo))
         if isinstance(r, SymInt):
             r.lowzeros = eo
@@ -613,6 +661,16 @@ class SymInt:
         eo = self.e
         if ctx().decide(eo < 0):
             raise ValueError("negative shift count")
+        K = small_range(self)
+        if K is not None:
+            r = mk(chain(eo, K, lambda k: z3.IntVal(o << k)))
+            if isinstance(r, SymInt):
+                if o == 1:
+                    r.pow2of = eo
+                    r.smallcount = K
+                if o >= 0:
+                    r.width = max(o.bit_length(), 1) + K - 1
+            return r
         r = mk(z3.IntVal(o) * pow2f(eo))
         if isinstance(r, SymInt):
             r.lowzeros = eo
@@ -634,6 +692,12 @@ class SymInt:
         eo = as_z3_int(o)
         if ctx().decide(eo < 0):
             raise ValueError("negative shift count")
+        K = small_range(o)
+        if K is not None:
+            r = mk(chain(eo, K, lambda k: self.e / z3.IntVal(1 << k)))
+            if isinstance(r, SymInt) and self.width is not None:
+                r.width = self.width
+            return r
         return mk(self.e / pow2f(eo))
 
     def __rrshift__(self, o):
@@ -642,6 +706,9 @@ class SymInt:
         eo = self.e
         if ctx().decide(eo < 0):
             raise ValueError("negative shift count")
+        K = small_range(self)
+        if K is not None:
+            return mk(chain(eo, K, lambda k: z3.IntVal(o >> k)))
         return mk(z3.IntVal(o) / pow2f(eo))
 
     # -- bitwise
